@@ -34,7 +34,7 @@ package banderwagon
 //@ modifies *p
 
 //@ func Element.SetBytesUnsafe
-//@ props C06 C19
+//@ props C06
 //@ prelude field curve bytesint
 //@ let xv = fp_of_int(BEb(buf))
 //@ ensures result == nil <==> (len(buf) == 32 && BEb(buf) < P_MOD && fp_issquare(y2(xv)))
@@ -43,7 +43,7 @@ package banderwagon
 //@ modifies *p
 
 //@ func Element.SetBytesUncompressed
-//@ props C06 C19
+//@ props C06
 //@ prelude field curve bytesint
 //@ let xv = fp_of_int(BEb(buf[0:32]))
 //@ let yl = lroot(y2(xv))
@@ -67,3 +67,56 @@ package banderwagon
 //@ props C07 C10 C14
 //@ prelude field curve bytesint
 //@ ensures bytesOfFp(result, encx(p.inner.X, p.inner.Y, p.inner.Z))
+
+//@ func Element.Equal
+//@ props C07 C02
+//@ prelude field
+//@ ensures result == (!(p.inner.X == fp_zero && p.inner.Y == fp_zero) && !(other.inner.X == fp_zero && other.inner.Y == fp_zero) && p.inner.X * other.inner.Y == p.inner.Y * other.inner.X)
+
+// ---- map to scalar field (C11)
+
+//@ func Element.mapToBaseField
+//@ props C11
+//@ prelude field
+//@ ensures result == p.inner.X * fp_inv(p.inner.Y)
+
+//@ func Element.MapToScalarField
+//@ props C11
+//@ prelude field bytesint frint
+//@ ensures *res == fr_of_int(fp_to_int(p.inner.X * fp_inv(p.inner.Y)) % R_MOD)
+//@ modifies *res
+
+// BatchMapToScalarField: error clause, bounds and nil safety are proved; the position-wise value clause
+// (result[k] == MapToScalarField(elements[k])) needs aliasing reasoning over a slice of pointers that the
+// solvers do not discharge: it is covered by the bounded differential stand-in of C11/C19, not by proof.
+//@ func BatchMapToScalarField
+//@ props C11
+//@ prelude field bytesint frint
+//@ requires forall k int :: 0 <= k && k < len(elements) ==> obj(elements[k]) >= 1
+//@ requires forall k int :: 0 <= k && k < len(result) ==> obj(result[k]) >= 1
+//@ ensures err != nil <==> len(result) != len(elements)
+//@ modifies *
+//@ loop 0 invariant 0 <= i && i <= len(elements) && len(ys) == len(elements) && fresh(ys)
+//@ loop 0 invariant forall k int :: 0 <= k && k < len(elements) ==> obj(elements[k]) >= 1
+//@ loop 1 invariant 0 <= i && i <= len(elements) && len(yInvs) == len(elements) && len(result) == len(elements)
+//@ loop 1 invariant forall k int :: 0 <= k && k < len(elements) ==> obj(elements[k]) >= 1
+//@ loop 1 invariant forall k int :: 0 <= k && k < len(result) ==> obj(result[k]) >= 1
+
+// ---- batch serialisation (C19)
+
+//@ func Element.BytesUncompressedTrusted
+//@ props C07
+//@ prelude field curve bytesint
+//@ ensures xbytes(result, p.inner.X * fp_inv(p.inner.Z)) && ybytes(result, p.inner.Y * fp_inv(p.inner.Z))
+
+//@ func ElementsToBytes
+//@ props C07
+//@ prelude field curve bytesint
+//@ requires forall k int :: 0 <= k && k < len(elements) ==> obj(elements[k]) >= 1
+//@ ensures fresh(result) && len(result) == len(elements)
+// (value clause result[k] == Bytes(*elements[k]) not discharged: strided byte-array invariant, see DESIGN)
+//@ loop 0 invariant 0 <= i && i <= len(elements) && len(zs) == len(elements) && fresh(zs)
+//@ loop 0 invariant forall k int :: 0 <= k && k < i ==> zs[k] == elements[k].inner.Z
+//@ loop 1 invariant 0 <= i && i <= len(elements) && len(zInvs) == len(elements) && fresh(zInvs) && len(serialised_points) == len(elements) && fresh(serialised_points) && obj(serialised_points) != obj(zInvs)
+//@ loop 1 invariant len(zs) == len(elements) && (forall k int :: 0 <= k && k < len(elements) ==> zs[k] == elements[k].inner.Z)
+//@ loop 1 invariant forall k int :: 0 <= k && k < len(elements) ==> zInvs[k] == fp_inv(zs[k])
